@@ -42,6 +42,7 @@ pub mod callargs;
 use crate::compile_util::*;
 use crate::util::*;
 use rssl::ir;
+use std::collections::HashMap;
 use sx::*;
 use vconv::*;
 use virev::*;
@@ -333,7 +334,18 @@ pub fn run_program(src: &str, only: Option<(&str, &[Vec<VV>])>, nvec: usize, rng
     }
     // arity oracle (independent of both evaluators, so it also judges modules the typed evaluator does not cover): every
     // emitted call of a function / method of the module binds every parameter of a declaration of that name
-    let arity: Vec<(Option<String>, String)> = module_sx.as_ref().map(|items| arity_failures(items)).unwrap_or_default();
+    let lost_defaults = callargs::callees_with_lost_default(&p.ir);
+    let arity: Vec<(Option<String>, String)> = module_sx
+        .as_ref()
+        .map(|items| arity_failures(items))
+        .unwrap_or_default()
+        .into_iter()
+        .map(|(encl, callee, msg)| {
+            // the typed program itself has no value for the left-out parameter (the default stayed on the forward declaration)
+            let lost = lost_defaults.iter().any(|n| n == &callee || emitted_leaf_of(&p, n).as_deref() == Some(callee.as_str()));
+            (encl, if lost { format!("class:{} ## {}", C_LOST_DEFAULT, msg) } else { msg })
+        })
+        .collect();
     let irv = if ir_unsupported.is_none() { IrV::new(&p.prog) } else { None };
     let ir_init = irv.as_ref().and_then(|ev| ev.init_globals());
     let fmod_builtin = prog_text.contains("(intr Fmod ");
@@ -525,7 +537,14 @@ fn last_component(name: &str) -> &str {
 /// (enclosing top-level function, or None inside a method; what is wrong) for every emitted call `f(..)` / `o.f(..)` whose name
 /// is the name of functions / methods defined in the module, none of which takes that many arguments: more arguments than
 /// parameters, or a parameter without default value left without argument
-pub fn arity_failures(items: &[Sx]) -> Vec<(Option<String>, String)> {
+pub const C_LOST_DEFAULT: &str = "default-value-of-forward-declaration-lost";
+
+/// emitted leaf name of the function with the given source name
+fn emitted_leaf_of(p: &MPrepared, src_name: &str) -> Option<String> {
+    p.funcs.iter().find(|(_, s, _)| s == src_name).map(|(_, _, e)| last_component(e).to_string())
+}
+
+pub fn arity_failures(items: &[Sx]) -> Vec<(Option<String>, String, String)> {
     // name (last component) -> (parameters, parameters without default value) of every definition
     let mut defs: HashMap<String, Vec<(usize, usize, String)>> = HashMap::new();
     fn collect(s: &Sx, defs: &mut HashMap<String, Vec<(usize, usize, String)>>) {
@@ -546,7 +565,7 @@ pub fn arity_failures(items: &[Sx]) -> Vec<(Option<String>, String)> {
         collect(i, &mut defs);
     }
     let types: Vec<String> = items.iter().filter(|i| matches!(i.head(), "struct" | "enum")).map(|i| i.args().first().map(|n| last_component(n.atom()).to_string()).unwrap_or_default()).collect();
-    fn walk(s: &Sx, encl: &Option<String>, defs: &HashMap<String, Vec<(usize, usize, String)>>, types: &[String], out: &mut Vec<(Option<String>, String)>) {
+    fn walk(s: &Sx, encl: &Option<String>, defs: &HashMap<String, Vec<(usize, usize, String)>>, types: &[String], out: &mut Vec<(Option<String>, String, String)>) {
         if let Sx::L(items) = s {
             let (name, nargs) = match s.head() {
                 "call" if !s.args().is_empty() => (Some(s.args()[0].atom()), s.args().len() - 1),
@@ -560,6 +579,7 @@ pub fn arity_failures(items: &[Sx]) -> Vec<(Option<String>, String)> {
                         if !cands.iter().any(|(n, required, _)| nargs <= *n && nargs >= *required) {
                             out.push((
                                 encl.clone(),
+                                key.to_string(),
                                 format!("emitted call {} passes {} argument(s), but no declaration of {} binds every parameter with that many: {}", s.show(), nargs, key, cands.iter().map(|c| c.2.clone()).collect::<Vec<_>>().join(" / ")),
                             ));
                         }
